@@ -76,7 +76,10 @@ def _chunks(xs, n):
     return [xs[i:i + k] for i in range(0, len(xs), k)]
 
 
-BRACE_SYMS = {200: '{0}', 201: '{1}', 202: '}{', 203: '{', 204: '}', 205: '{{0}}', 206: '{2}'}
+BRACE_SYMS = {200: '{0}', 201: '{1}', 202: '}{', 203: '{', 204: '}', 205: '{{0}}', 206: '{2}',
+              # names that differ only in white space (Kore domain values become Symbol(str(value)) verbatim)
+              210: 'hello  world', 211: 'hello world', 212: ' hello world', 213: 'hello world ', 214: 'hello\tworld'}
+TAB_SYMS = (214,)       # not used where Python's repr() is rendered (the model covers printable strings only)
 
 
 class Sides:
@@ -266,6 +269,28 @@ def make_case(op, args, nots=None):
     """build the oracle for a request from its text (so that replay files need only op and args)"""
     E = G.ref_expand
     r = PC.Reader(args)
+    if op == 'HIST':
+        subs = []
+        for _ in range(r.int()):
+            kind = r.next()
+            start = r.i
+            if kind == 'MS':
+                r.term()
+                r.term()
+                r.delta()
+            else:
+                for _j in range(r.int()):
+                    r.term()
+                    r.term()
+            subs.append(make_case(kind, ' '.join(r.a[start:r.i])))
+
+        def post(ans, drop):
+            parts = [x.strip() for x in ans.split(' | ')]
+            if len(parts) != len(subs):
+                raise BadAnswer(ans)        # includes the ALIASED marker of the runner
+            return tuple(c.post(a, drop) for c, a in zip(subs, parts))
+        return Case(op, args, lambda drop: tuple(c.spec(drop) for c in subs), post, 'match-history', True,
+                    tuple(t for c in subs for t in c.terms))
     if op in ('ML', 'MLI'):
         eqs = []
         for _ in range(r.int()):
@@ -532,6 +557,15 @@ def case_inputs(op, args, nots=None):
         out = []
         for _ in range(r.int()):
             out += [r.term(), r.term()]
+        return out, (), ()
+    if op == 'HIST':
+        out = []
+        for _ in range(r.int()):
+            if r.next() == 'MS':
+                out += [r.term(), r.term()] + [v for _, v in r.delta()]
+            else:
+                for _j in range(r.int()):
+                    out += [r.term(), r.term()]
         return out, (), ()
     if op == 'RT':
         _, d = _read_notation(r, nots)
